@@ -70,7 +70,8 @@ CHECKS["C01"] = {
                        "types/int.py:Int._write", "types/packed.py:Packed._write", "types/enum.py:EnumMetaType._write",
                        "types/pointer.py:Pointer._write", "<compiled>"],
     "required_cells": ["pinned-witnesses", "align:True", "align:False", "endian:<", "endian:>", "feat:bits:signed", "feat:union",
-                       "feat:ptr", "feat:arr:struct", "deep-folded-length-source", "endian-switched-after-use", "explicit-forward-offsets"],
+                       "feat:ptr", "feat:arr:struct", "deep-folded-length-source", "endian-switched-after-use", "explicit-forward-offsets", "written-then-extended",
+                       "pointer-width-switched-after-definition"],
     "assumptions": ASSUME_COMMON,
 }
 
@@ -221,7 +222,8 @@ CHECKS["C10"] = {
                        "parser.py:TokenParser._enum", "parser.py:TokenParser._constant"],
     "required_cells": ["exhaustive", "random", "literal-forms", "in-situ", "c-compiler", "identifier-spellings",
                        "character-valued-names", "length-expression:flat", "length-expression:eof-rows", "length-expression:fixed-rows",
-                       "length-expression:counted-rows", "length-expression:name-between-sizeof-and-a-later-parenthesis"],
+                       "length-expression:counted-rows", "length-expression:name-between-sizeof-and-a-later-parenthesis",
+                       "length-expression:fields-folded-1-levels", "length-expression:fields-folded-2-levels"],
     "exhaustive": {"quick": False, "thorough": False},
     "assumptions": ASSUME_COMMON + ["the reference evaluator vf/refexpr.py is the C-precedence specification"],
 }
